@@ -279,6 +279,10 @@ func (w *World) verifyFuncOnce(fi *FuncInfo, props []string, prefix []int, pathM
 			st.assume(fx.specBool(fx.specEnv(st, st, fi.Body.Lbrace), ci.Expr))
 		}
 	}
+	if fi.Spec == nil || fi.Spec.Flags["entrylocks"] == "" {
+		// an activation starts holding no lock at all unless its contract says otherwise (flag entrylocks)
+		st.assume(fmt.Sprintf("(= %s ((as const (Array Int Int)) 0))", st.heap("LK", "(Array Int Int)")))
+	}
 	fx.entry = st.clone()
 	// vacuity: the precondition must be satisfiable
 	vo := c.oblige(st, "vacuity", "requires", "true", "precondition is satisfiable", w.pos(fi.Body.Pos()))
